@@ -44,7 +44,7 @@ def _tier_of(case):
 
 
 def cases(tier, seed):
-    out = []
+    out = [("extra",)]
     plan = [(0, None, "all"), (1, None, "all"), (2, None, "cold" if tier == "quick" else "same")]
     if tier == "thorough":
         plan.append((2, CORE, "all"))
@@ -82,7 +82,7 @@ def callables(term):
     return sorted(all_callables(term))
 
 
-def check_term(label, term, dicts, warm, res, faults_pass=True):
+def check_term(label, term, dicts, warm, res, faults_pass=True, keys_exempt=False):
     fails = []
     reported = set()
 
@@ -91,7 +91,7 @@ def check_term(label, term, dicts, warm, res, faults_pass=True):
             return
         reported.add(kind)
         fails.append({"sig": f"C10|{kind}|{label}|{o!r}|{extra!r}", "what": f"{kind}: {label} under {o!r}" + (f" ({extra})" if extra else ""),
-                      "detail": d + " term=" + short(term, 400), "case": ("one", label, term, dicts, warm)})
+                      "detail": d + " term=" + short(term, 400), "case": ("one", label, term, dicts, warm, faults_pass, keys_exempt)})
 
     from .c06 import syntactic_structural
 
@@ -126,7 +126,12 @@ def check_term(label, term, dicts, warm, res, faults_pass=True):
             res["evaluations"] += 1
             if not e.ok:
                 res["nontrivial"] += 1
-            if in_domain and not (v.ok == k.ok == e.ok):
+            if in_domain and keys_exempt and warm == "cold" and wname == "cold":
+                # an option read only by an EFFECT is not part of keys() (effects do not run on a cache hit, so
+                # the stored value does not depend on it): only validate and evaluate are compared
+                if v.ok != e.ok:
+                    fail("disagree", o, f"[{wname}] validate={v!r} evaluate={e!r}", wname)
+            elif in_domain and not keys_exempt and not (v.ok == k.ok == e.ok):
                 fail("disagree", o, f"[{wname}] validate={v!r} keys={k!r} evaluate={e!r}", wname)
             for name, lg in (("validate", vlog), ("keys", klog)):
                 extra = [ev for ev in lg if ev not in structural and ev not in syn]
@@ -160,8 +165,21 @@ def check_term(label, term, dicts, warm, res, faults_pass=True):
 def run_case(case):
     res = {"failures": [], "evaluations": 0, "nontrivial": 0, "terms": 0, "samples": []}
     if case[0] == "one":
-        _, label, term, dicts, warm = case
-        res["failures"] = check_term(label, term, dicts, warm, res)
+        _, label, term, dicts, warm = case[:5]
+        res["failures"] = check_term(label, term, dicts, warm, res, *case[5:7])
+        return res
+    if case[0] == "extra":
+        # effects whose own parameters are options, with the effects switch in the dictionary (c11.extra_terms):
+        # one long-lived object sees every dictionary in turn
+        from .c11 import extra_terms
+
+        for label, term, spec in extra_terms():
+            dicts = cat.dictionaries(spec)
+            res["terms"] += 1
+            # cold caches only: with a warm cache evaluate() legitimately succeeds (a hit runs no effect) where
+            # validate() still asks for the effect's option
+            res["failures"].extend(check_term(label, term, dicts, "cold", res, faults_pass=False, keys_exempt=True))
+            res["failures"].extend(check_term(label + ":reversed", term, list(reversed(dicts)), "cold", res, faults_pass=False, keys_exempt=True))
         return res
     _, depth, ctxs, a, b, warm = case[:6]
     for label, term, spec in itertools.islice(cat.catalogue(depth, _leaves(depth, _tier_of(case)), ctxs), a, b):
